@@ -49,13 +49,17 @@ Build(s, i, vec) ==
             ELSE LET x == Build(s, i + 1, FALSE) IN IF x = <<>> THEN <<>> ELSE <<Id("bb"), LP>> \o x \o <<RP>>
 Shapes == UNION {[1..n -> {"p", "n", "q", "c"}] : n \in 0..MaxLen}
 HasParen(s) == \E i \in 1..Len(s) : s[i] = "p"
-Init == /\ side \in {"plain", "right", "prec", "call0"}
+Init == /\ side \in {"plain", "right", "prec", "call0", "xor3"}
         /\ shape \in {s \in Shapes : Build(s, 1, FALSE) # <<>> /\ (side = "right" => HasParen(s))
-                                    /\ (side \in {"prec", "call0"} => Len(s) <= 3)}
+                                    /\ (side \in {"prec", "call0", "xor3"} => Len(s) <= 3)}
         /\ d \in 0..MaxD
 Next == FALSE /\ UNCHANGED <<shape, d, side>>
 Spec == Init /\ [][Next]_<<shape, d, side>>
-Toks == IF side = "prec"
+(* side = "xor3": the shape is the last operand of  b1 xor b1 xor <shape> : a chain of one operator is ONE node with three *)
+(* operands (no level of its own, in the limit and in the tree alike)                                                      *)
+Toks == IF side = "xor3"
+        THEN <<Id("b1"), [k |-> "lop", v |-> "xor", a |-> 0], Id("b1"), [k |-> "lop", v |-> "xor", a |-> 1]>> \o Build(shape, 1, FALSE)
+        ELSE IF side = "prec"
         THEN <<Id("b1"), [k |-> "lop", v |-> "or", a |-> 0], Id("b1"), [k |-> "lop", v |-> "and", a |-> 1]>> \o Build(shape, 1, FALSE)
         ELSE Build(shape, 1, FALSE)
 (* with call0 the base adds a level unless the innermost position wants an array (then the base is the field vb) *)
